@@ -57,6 +57,16 @@ def r1(ctx):
     ok = bool(hf) and norm(hf) == norm(ef)
     ctx.ob('C18.R1', c, '%s: __hash__ and __eq__ use the same fields' % c.name, ok,
            '__hash__ uses %s, __eq__ uses %s' % (sorted(hf), sorted(ef)), why)
+    # every field comparison pairs a field of self with the SAME field of the other object
+    oparam = e.params[1] if len(e.params) > 1 else 'other'
+    cross = []
+    for cmp_ in [x for x in ast.walk(e.node) if isinstance(x, ast.Compare) and len(x.ops) == 1 and isinstance(x.ops[0], (ast.Eq, ast.NotEq))]:
+      l, r_ = cmp_.left, cmp_.comparators[0]
+      if isinstance(l, ast.Attribute) and isinstance(r_, ast.Attribute) and isinstance(l.value, ast.Name) and isinstance(r_.value, ast.Name) \
+         and {l.value.id, r_.value.id} == {'self', oparam} and l.attr != r_.attr:
+        cross.append(U(cmp_))
+    ctx.ob('C18.R1', c, '%s: __eq__ compares each field with the same field of the other object' % c.name, not cross,
+           '__eq__ compares different fields with each other: %s' % cross, why)
     # __eq__ must compare against the other object's same fields (not identity)
     txt = U(e.node)
     ctx.ob('C18.R1', c, '%s: __eq__ compares field values' % c.name, '==' in txt and ' is other' not in txt and 'id(' not in txt,
